@@ -36,10 +36,10 @@ DEFAULT_W = dict(add_dim=4, del_dim=2, add_attr=8, del_attr=5, rename=3, disable
                  keygen=10, refresh=10, encaps=12, recaps=3, decaps=15, rt=4, snap=1, restore=1, rfbad=2, ap=3)
 
 
-def gen_history(rng, w=None, nsteps=(8, 45), final_pairs=True, names_extra=('e', 'f'), multibyte=False):
+def gen_history(rng, w=None, nsteps=(8, 45), final_pairs=True, names_extra=('e', 'f'), multibyte=False, exotic=False):
     W = dict(DEFAULT_W); W.update(w or {})
     out = ['SETUP']; sim = Sim()
-    attr_pool = ATTR + (['é', '名'] if multibyte else [])
+    attr_pool = ATTR + (['é', '名'] if multibyte else []) + (['a b', '', ' x', 'a*', 'é'] if exotic else [])
     for d in rng.sample(DIMS, rng.randint(1, 3)):
         k = rng.choice(['AA', 'AH']); out.append(f'{k} {x(d)}'); sim.dims[d] = []; sim.kinds[d] = k
         for a in rng.sample(attr_pool, rng.randint(1, 3)):
